@@ -7,7 +7,7 @@ from rtverif.props.c01 import rel_for
 
 class C16(Prop):
     id = 'C16'
-    rule_added = '30% of discrete cases under a sampling period p*unit (19 numbers x 3 units), 60% of those after a neighbour object with the same text and a finer period unit was evaluated. Bounds with the unit on both ends, the begin only or the end only.'
+    rule_added = '30% of discrete cases under a sampling period p*unit (19 numbers x 3 units), 60% of those after a neighbour object with the same text and a finer period unit was evaluated. Bounds with the unit on both ends, the begin only or the end only. 20%: one object for the trace and its extension, possibly modular and after a call that failed part-way.'
     rule = ('random STL formulas without unbounded future (bounded eventually/always/until/unless, next, all past '
             'operators, Boolean, arithmetic) x a trace w1 (1..25 samples) and an extension w2 of 1..10 adversarial '
             'samples: two fresh offline specs evaluate w1 and w2 and must agree at every t with t+h < |w1| (h computed '
